@@ -36,7 +36,9 @@ def _shown(ctx_addr_value, addr_values):
 
 
 c = contract(AF + "_set_addr_values", params={"ctx_addr_value": AV, "addr_values": SSET}, returns=T.NoneT,
-             modifies=["F:AddrFieldValue.any_addr", "F:AddrFieldValue.no_addr", "F:AddrFieldValue.possible_addr"], tags=["C08", "C13"])
+             modifies=["F:AddrFieldValue.any_addr", "F:AddrFieldValue.no_addr", "F:AddrFieldValue.possible_addr", "L.bag:String"],
+             tags=["C08", "C13"])
+c.allocates = True
 c.field_types = {("AddrFieldValue", "any_addr"): T.Bool, ("AddrFieldValue", "no_addr"): T.Bool,
                  ("AddrFieldValue", "possible_addr"): T.List(T.Str, "bag")}
 c.axiom_bags = True
@@ -56,6 +58,23 @@ def _others_untouched(ctx_addr_value, old, new):
 
 ensures(c, "frame", lambda ctx_addr_value, old, new: _others_untouched(ctx_addr_value, old, new),
         note="no other address record is written")
+
+
+def _fresh_list(ctx_addr_value, old, new):
+    """possible_addr is a new list; the lists that existed before keep their contents"""
+    ctx = current()
+    K = ctx.ex.ct.cls("AddrFieldValue")
+    lst = z3.Select(new.st.harr("F:AddrFieldValue.possible_addr", z3.IntSort(), z3.IntSort()), ctx_addr_value.term)
+    es = sort_of(T.Str)
+    b0 = old.st.harr(f"L.bag:{es}", z3.IntSort(), z3.ArraySort(es, z3.IntSort()))
+    b1 = new.st.harr(f"L.bag:{es}", z3.IntSort(), z3.ArraySort(es, z3.IntSort()))
+    r = z3.Int(fresh_name("fr"))
+    return VBool(z3.And(lst >= old.st.alloc_ptr(), lst < new.st.alloc_ptr(),
+                        z3.ForAll([r], z3.Implies(r < old.st.alloc_ptr(), z3.Select(b1, r) == z3.Select(b0, r)))))
+
+
+ensures(c, "fresh_list", lambda ctx_addr_value, old, new: _fresh_list(ctx_addr_value, old, new),
+        note="the list of possible addresses is a new object; existing lists are not written")
 
 
 def _samples():
